@@ -169,6 +169,31 @@ def run_cases(ctx, doubles):
                     ctx.diverge('denotations differ for d=%r: %s vs %s' % (d, rep[3], rep[4]), {'bits': b})
 
 
+def run_ints(ctx):
+    """floatToGoString is given Python ints too (custom collectors pass them as sample values): the rendering must be the
+    rendering of float(n) — in particular two ints that are the same double must not render differently"""
+    from prometheus_client import utils
+    rng = ctx.rng
+    ints = [0, 1, -1, 10 ** 6, 10 ** 6 + 1, 2 ** 53, 2 ** 53 + 1, 2 ** 53 - 1, 10 ** 16, 10 ** 16 + 1, 2 ** 64 - 1, 2 ** 64, 10 ** 22, 10 ** 22 + 7,
+            10 ** 23, -(2 ** 60) + 3, 123456789012345678, 999999, 1000000, 9007199254740993, True, False]
+    ints += [rng.randrange(10 ** 6, 10 ** 20) for _ in range(200)] + [rng.randrange(0, 2 ** 70) for _ in range(100)]
+    for n_ in ints:
+        ctx.case(nontrivial_key=('int', int(n_)))
+        ctx.count('int-input')
+        try:
+            got = utils.floatToGoString(n_)
+            want = utils.floatToGoString(float(n_))
+        except OverflowError:
+            continue
+        except Exception as e:
+            ctx.fail('C13:int-raises', 'floatToGoString(%r) raised %s' % (n_, type(e).__name__), {'int': int(n_)})
+            continue
+        why = oracle(float(n_), got)
+        if why or got != want:
+            ctx.fail('C13:int-rendering', 'floatToGoString(%r) = %r but floatToGoString(float(n)) = %r%s' % (n_, got, want, ('; ' + why) if why else ''),
+                     {'int': int(n_)})
+
+
 def run_expo(ctx, doubles):
     """the same floats rendered THROUGH the two expositions (sample values, le labels, exemplar values), many per scrape —
     the property speaks of every float the library renders, not only of floatToGoString called alone"""
@@ -309,6 +334,7 @@ def run(ctx):
         n *= 3  # a proof obligation broke: widen the failing-input search
     ds = gen_doubles(ctx, n)
     run_cases(ctx, ds)
+    run_ints(ctx)
     # through the expositions: signed zeros, NaN, infinities and neighbours side by side in one scrape
     rng = ctx.rng
     mix = [0.0, -0.0, 1.0, -1.0, math.nan, math.inf, -math.inf, 5e-324, -5e-324, 1e6, 1000000.0000000001, 1e16, 123456789.125]
@@ -320,7 +346,9 @@ def run(ctx):
 
 def replay(ctx, case):
     c = case.get('case', {})
-    if 'bounds_bits' in c:
+    if 'int' in c:
+        run_ints(ctx)
+    elif 'bounds_bits' in c:
         run_hist(ctx, [lib.from_bits(int(b)) for b in c['bounds_bits']])
     elif 'bits_list' in c:
         run_expo(ctx, [lib.from_bits(int(b)) for b in c['bits_list']])
